@@ -8,6 +8,7 @@ import (
 	"sort"
 	"sync/atomic"
 	"time"
+	"verif/internal/vt"
 
 	"cloud.google.com/go/bigtable"
 	btapb "cloud.google.com/go/bigtable/admin/apiv2/adminpb"
@@ -485,12 +486,21 @@ func (s *Srv) Call(ctx context.Context, rpc string, msg proto.Message, onSend fu
 	// taken twice) is a reported failure and not a wedged check. Callers that park streams on purpose (onSend)
 	// and scheduler-driven checks (Inline) have their own detection.
 	done := make(chan *Result, 1)
-	go func() { done <- s.callInline(ctx, rpc, msg, nil) }()
-	select {
-	case r := <-done:
-		return r
-	case <-time.After(HangAfter):
-		return &Result{Panic: fmt.Sprintf("HANG: %s did not return within %s", rpc, HangAfter)}
+	gid := make(chan int64, 1)
+	go func() { gid <- vt.Goid(); done <- s.callInline(ctx, rpc, msg, nil) }()
+	id := <-gid
+	for round := 0; ; round++ {
+		select {
+		case r := <-done:
+			return r
+		case <-time.After(HangAfter):
+		}
+		// blocked in a lock / channel wait in every sample = hung; anything else = an overloaded machine
+		if stuck, states := vt.Stuck(id); stuck {
+			return &Result{Panic: fmt.Sprintf("HANG: %s did not return within %s; its goroutine sits in %v", rpc, HangAfter, states)}
+		} else if round >= 4 {
+			panic(fmt.Sprintf("HARNESS: %s has not returned after %d x %s but is not blocked (states %v): machine too slow to judge", rpc, round+1, HangAfter, states))
+		}
 	}
 }
 
